@@ -23,6 +23,7 @@ class P(vlib.Prop):
         dict(name="c02", cmd="c02", args=lambda t, s: ["-stage", "c02"]),
     )
     coq_targets = ["Properties/C02.vo", "Corr/C02.vo"]
+    watch = ("pkg/apk/apk/repo.go", "pkg/apk/apk/version.go")
     assumptions = (
         "a universe is the list of all packages of all indexes in (index, package) order with the index's pin name and repository URI attached to each package; package identity = position in that list (Go: *RepositoryPackage pointer)",
         "the two process-wide caches are not part of this model (fresh index objects per case; they belong to C08): dq0 is what a fresh disqualifyDifference returns",
